@@ -131,11 +131,11 @@ def run(ctx):
         else:
             rep.ok("NI-1", pf.key, "effect-free", where=pf.loc())
         found = False
-        for bi, si, s in mir.iter_stmts(pf):
-            if s["k"] == "assign" and s["p"]["l"] == 0 and s["r"]["k"] == "agg" and s["r"].get("variant") in PASS_VARIANTS:
+        for (bi, line_, lits0) in pass_sites(prog, pf, c):
+            if True:
                 found = True
                 # helpers the filter was split into are read through (what they guarantee when they return Some/true)
-                lits = cnd.expand_literals(prog, pf, set(c.must_literals(bi)), depth=3)
+                lits = cnd.expand_literals(prog, pf, lits0, depth=3)
                 compat = any(l[0] == "bool" and l[2] is True and df.strip(l[1])[0] == "call" and
                              df.strip(l[1])[2] in ("is_compatible", "is_message_buffer_compatible") for l in lits)
                 parsed = any(l[0] == "variant" and l[2] == frozenset(["Ok"]) and df.strip(l[1])[0] == "call" and
@@ -153,11 +153,11 @@ def run(ctx):
                 for (nm, ok) in (("version gate is_compatible(data)", compat), ("Message::deserialize == Ok", parsed),
                                  ("sdoId == defaultDS.sdo_id", sdo), ("domainNumber == defaultDS.domain_number", dom)):
                     if ok:
-                        rep.ok("NI-1", pf.key, "Continue needs " + nm, where=fc.where(pf, s["sp"][1]))
+                        rep.ok("NI-1", pf.key, "Continue needs " + nm, where=fc.where(pf, line_))
                     else:
                         rep.violation("NI-1", pf.key, "Continue needs " + nm,
                                       "parse_and_filter can return Continue without `%s`; conditions that hold: %s" % (
-                                          nm, sorted(cnd.lit_str(l) for l in lits)), where=fc.where(pf, s["sp"][1]))
+                                          nm, sorted(cnd.lit_str(l) for l in lits)), where=fc.where(pf, line_))
         if not found:
             rep.violation("NI-1", pf.key, "Continue", "no ControlFlow::Continue result found", where=pf.loc())
         # is_compatible: version nibble
@@ -231,6 +231,13 @@ def run(ctx):
 
     rep.rule("NI-7", "TLVs are queued for forwarding only from Announces that passed the acceptance gate", floor=1)
     fc.check_forward_gate(rep, prog, "NI-7")
+
+    # ---------------- NI-8: a frame shorter than it claims to be is malformed and must be rejected, not parsed from
+    # whatever octets arrived (shared with C04 LEN-2)
+    rep.rule("NI-8", "a frame is parsed only from buffer.get(34..messageLength) (a datagram shorter than its declared length, "
+                     "or a declared length below the header size, is rejected) - shared with C04 LEN-2", floor=3)
+    from rules import c04 as _c04
+    _c04.len2(rep, prog, "NI-8", only_receive=True)
 
     # ---------------- NI-6: the parent the gates compare against follows the BMCA's choice exactly
     rep.rule("NI-6", "on S1 a Slave port keeps its SlaveState only when its remote_master equals the new parent as a full "
@@ -352,3 +359,54 @@ def run(ctx):
                                           where=g.loc())
     except AnchorMissing as e:
         rep.anchor_missing("NI-4", str(e))
+
+
+
+def pass_sites(prog, pf, c):
+    """(block, line, literals) for every way parse_and_filter hands a message on: an aggregate Continue/Some/Ok stored
+    to the return place, or `cond.then_some(message)` returned directly (passes exactly when cond holds)"""
+    out = []
+    for bi, si, s in mir.iter_stmts(pf):
+        if s["k"] == "assign" and s["p"]["l"] == 0 and not s["p"]["proj"] and s["r"]["k"] == "agg" and \
+                s["r"].get("variant") in PASS_VARIANTS:
+            out.append((bi, s["sp"][1], set(c.must_literals(bi))))
+    for bi, t, cal in mir.iter_calls(pf, name="then_some"):
+        if t["dest"]["l"] == 0 and not t["dest"]["proj"] and len(t["args"]) == 2:
+            lits = set(c.must_literals(bi)) | set(c._bool_literals(df.strip(c.prov.op_tree(t["args"][0])), True, 0))
+            out.append((bi, t["sp"][1], lits))
+    return out
+
+def check_domain_gate(rep, prog, rid):
+    """parse_and_filter passes a message on only when BOTH its sdoId and its domainNumber equal defaultDS's (used by
+    C10: responses copy those two fields from the request header)"""
+    try:
+        pf = prog.one(name="parse_and_filter", self_name="Port", crate="statime-lib")
+        c = cnd.conds(prog, pf)
+        found = False
+        for (bi, line_, lits0) in pass_sites(prog, pf, c):
+            if True:
+                found = True
+                lits = cnd.expand_literals(prog, pf, lits0, depth=3)
+                dom = sdo = False
+                for l in lits:
+                    if l[0] == "bool" and l[2] is True:
+                        r = closure_true_literals(prog, pf, l[1])
+                        if r:
+                            cl, cb = r
+                            sdo = sdo or cnd.has_cmp(cl, "eq", lambda t: fields_end(t, "default_ds", "sdo_id"),
+                                                     lambda t: not fields_end(t, "default_ds", "sdo_id"))
+                            dom = dom or cnd.has_cmp(cl, "eq", lambda t: fields_end(t, "default_ds", "domain_number"),
+                                                     lambda t: not fields_end(t, "default_ds", "domain_number"))
+                for (nm, ok) in (("sdoId == defaultDS.sdo_id", sdo), ("domainNumber == defaultDS.domain_number", dom)):
+                    if ok:
+                        rep.ok(rid, pf.key, "request accepted only with " + nm, where=fc.where(pf, line_))
+                    else:
+                        rep.violation(rid, pf.key, "request accepted only with " + nm,
+                                      "a request can pass the receive filter without `%s`, and Delay_Resp / Pdelay_Resp copy "
+                                      "sdoId and domainNumber from the request header: a response would bear a foreign "
+                                      "sdoId/domain; conditions that hold: %s" % (nm, sorted(cnd.lit_str(l) for l in lits)),
+                                      where=fc.where(pf, line_))
+        if not found:
+            rep.violation(rid, pf.key, "request accepted", "no passing result found in parse_and_filter", where=pf.loc())
+    except AnchorMissing as e:
+        rep.anchor_missing(rid, str(e))
